@@ -79,6 +79,8 @@ class Frame:
         self.events = []                 # (kind, guard) in program order: 'yield', 'append', 'reset'
         self.append_pred = None
         self.locals = {}                 # local name -> z3 term (scalar value computed from the state)
+        self.tokconds = []               # sources of the enclosing `if` tests (None = depends on the state)
+        self.fresh = 0
         self.guard = z3.BoolVal(True)
 
     # ---- token predicates ----------------------------------------------------------------
@@ -189,6 +191,36 @@ class Frame:
             return v != 0
         raise Unsupported(f'truth of {ast.unparse(node)}')
 
+    def define_tok_local(self, name, value_node):
+        """(re)definition of a local that is a pure function of the token.  A re-definition, or a
+        definition under `if` tests that are themselves token-only, becomes a conditional
+        expression over the previous definition; under a state-dependent test it is unsupported."""
+        conds = list(self.tokconds)
+        if any(c is None for c in conds):
+            raise Unsupported(f'token-derived local {name} assigned under a state-dependent condition')
+        redefinition = name in self.tok_defs
+        if not redefinition and not conds:
+            self.tok_defs[name] = ast.unparse(value_node)
+            return
+        if not redefinition:
+            raise Unsupported(f'token-derived local {name} first assigned under a condition')
+        self.fresh += 1
+        old = f'{name}__{self.fresh}'
+
+        class Ren(ast.NodeTransformer):
+            def visit_Name(self, n):
+                return ast.copy_location(ast.Name(id=old, ctx=n.ctx), n) if n.id == name else n
+        new_src = ast.unparse(Ren().visit(ast.parse(ast.unparse(value_node), mode='eval').body))
+        cond_src = ' and '.join('(' + ast.unparse(Ren().visit(ast.parse(c, mode='eval').body)) + ')' for c in conds) or 'True'
+        # keep evaluation order: old definition first, then the new one
+        defs = dict(self.tok_defs)
+        prev = defs.pop(name)
+        self.tok_defs.clear()
+        for k, v in defs.items():
+            self.tok_defs[k] = v
+        self.tok_defs[old] = prev
+        self.tok_defs[name] = f'(({new_src}) if ({cond_src}) else {old})'
+
     # ---- statements -----------------------------------------------------------------------
     def assign(self, attr, val, guard):
         if isinstance(val, tuple):
@@ -246,8 +278,12 @@ class Frame:
             return z3.BoolVal(False)
         if isinstance(s, ast.If):
             c = self.truth(s.test)
+            src = ast.unparse(s.test) if self.is_tok(s.test) else None
+            self.tokconds.append(src)
             g_then = self.block(s.body, z3.And(guard, c), rets)
+            self.tokconds[-1] = None if src is None else f'not ({src})'
             g_else = self.block(s.orelse, z3.And(guard, z3.Not(c)), rets)
+            self.tokconds.pop()
             return z3.simplify(z3.Or(g_then, g_else))
         if isinstance(s, ast.Assign) and len(s.targets) == 1:
             t = s.targets[0]
@@ -263,7 +299,7 @@ class Frame:
                 return guard
             if isinstance(t, ast.Name):
                 if self.is_tok(s.value) or (not self.m.uses_self(s.value) and self.m.names_in(s.value) <= (TOKEN_NAMES | set(self.tok_defs))):
-                    self.tok_defs[t.id] = ast.unparse(s.value)
+                    self.define_tok_local(t.id, s.value)
                     return guard
                 if not self.m.uses_self(s.value) and not (self.m.names_in(s.value) & self.tokvars()):
                     self.consts[t.id] = ast.unparse(s.value)      # e.g. EOS_TTYPE = T.Whitespace, T.Comment.Single
